@@ -5,6 +5,8 @@ P1  inter-procedural may-mutate analysis (FX): for every public function /
     parameter object or a view of it (directly, via out=, via attribute stores,
     via a repo callee, or later through self.<attr> that aliases a constructor
     argument).
+P3  batch clause for the trailing-axes functions (c20_batch.py): nothing on the
+    result slice reads a leading axis.
 P2  hidden state: no function rebinds or mutates a module-level object, no
     memoisation decorator, no mutated mutable default, no function / class
     attribute used as a store.
@@ -73,7 +75,8 @@ def run(rep, tier, root=None):
                          "calls into numpy/scipy/matplotlib/numba that are not in the in-place tables do not modify their arguments"]
     rep.assumptions += ["no exec/eval/getattr-by-string/ctypes in aotools (checked below)",
                         "a parameter documented as int/float/str/bool/tuple or with such a default is an immutable scalar",
-                        "batch clause ('stack call = per-item call') is not decided here"]
+                        "batch clause ('stack call = per-item call'): decided for the trailing-axes functions (P3, table in "
+                        "c20_batch.py); the ndim-dispatching centroiders are decided by C15 (H2); other functions take single items"]
     rep.explanation = ("May-alias/may-mutate abstract interpretation of every function body with per-branch states and "
                        "loop fixpoints; summaries propagated over the resolved call graph to a fixpoint. One obligation "
                        "per (public function, parameter): the set of in-place sinks reachable from the parameter object "
@@ -192,6 +195,10 @@ def run(rep, tier, root=None):
                                           "stores state on a %s object" % b.kind, f.where(n))
         if not bad:
             rep.ok("P2.no-hidden-state", f.fq, "no module/class/function state written, no memoisation", False)
+    # P3 batch clause for trailing-axes functions
+    from . import c20_batch
+    nb = c20_batch.check(rep, ix)
+    rep.floor("P3 axis-bearing constructs", nb, 30)
     # module-level mutable containers written by functions were covered above; note RNG consumers
     rng_users = sorted(f.fq for f in ix.all_functions() if fx.summary(f).rng_global)
     rep.note("functions consuming NumPy's global random stream (documented randomness, not hidden state): %s" % rng_users)
